@@ -41,6 +41,14 @@ hist.update({'m7_C06g':'caught as built','m7_C16g':'caught as built','m7_C04g':'
 summ.update({'m7_C01g':'the WHERE result slice is query.from[:0]: filtering compacts the caller\'s table in place','m7_C03g':'whole-table aggregates fall back to the unfiltered table when WHERE rejects every row','m7_C04g':'nested-loop outer join emits only the first row of an unmatched duplicate-key group','m7_C06g':'DISTINCT reuses one hasher and skips Reset after a dropped duplicate',
 'm7_C07g':'`<-`-sourced subqueries are memoised per query although they still refer to the current outer row','m7_C09g':'ParseSelector splits on every `=>`: fn=> with a later keep=> is not recognised as a function call','m7_C10g':'ranges using `end` skip the bounds check: begin beyond the array panics out of New','m7_C12g':'the async-slot chain stops one step early when the next slot holds NULL: a *interface{} reaches the row',
 'm7_C13g':'LIKE memoises the last compiled pattern in package-level variables without synchronisation','m7_C16g':'NUL is rewritten to \\0 before backslashes are doubled','m7_C17g':'FindArrayIndex skips the byte after a backslash only if it is a quote: an escaped backslash before a closing quote inverts quote tracking','m7_C19g':'ORDER BY comparator treats a failed read of the second operand\'s key as NULL'})
+
+hist.update({'m8_C02h':'inconclusive as built (ParseInt on the opaque text of a symbolic literal: partial concretisation) → H_C02_literals (18 concrete decimal spellings × sign, alone and inside arithmetic)','m8_C05h':'inconclusive as built (builtin max() on a symbolic int crashed the engine) → symbolic builtin min/max; then missed → whole-table aggregate shape in H_C05_pipeline',
+'m8_C16h':'inconclusive as built (range over a symbolic string unsupported) → rune-by-rune range through utf8.DecodeRuneInString\'s SSA; then caught by H_C16_echo_str (byte 0xC3)','m8_C14h':'missed → user-registered immediate functions under mixed-case names × six qualifier spellings in H_C14_immediate','m8_C18h':'missed (case maps were checked on ASCII only) → H_C18_casemaps (23 runes from scripts where upper/lower/title differ, one- and two-rune strings)',
+'m8_C15h':'missed → float64 values with exponent-form text (1e+06 … 2.1e+21, 1e-07) against strings, own text and extended text','m8_C06h':'missed → a plain SELECT branch with its own LIMIT/OFFSET inside UNION [ALL] … LIMIT (3 forms)','m8_C11h':'missed → documents whose rows carry a key spelled `<-`, CTEs inside select-list subqueries',
+'m8_C04h':'missed → H_C04_aliases (aliases that are prefixes of one another, multi-letter aliases, both orientations)','m8_C08h':'missed → four depth-3 / mixed-depth shapes (empty array first, flat array first) × {nested, mix=>} in H_C08_depth3','m8_C20h':'missed → H_C20_prepared (queries built up front and executed later, re-executed, caller updates in between)','m8_C12h':'missed → `::` selectors next to the plain selectors their stages spell (H_C12_plain query, H_C09_sequence over every ordered pair of 45 selectors)'})
+summ.update({'m8_C02h':'integer literals go through ParseInt(text, 0, 64): 010 is 8','m8_C04h':'column ownership in ON decided by HasPrefix(path, alias): alias t claims t2.y','m8_C05h':'row scan stops after offset+limit matches although an aggregate-only select list folds all rows','m8_C06h':'UNION ALL … LIMIT n pushes the LIMIT into every branch, overwriting a branch\'s own LIMIT/OFFSET',
+'m8_C08h':'mix=> takes a one-level fast path when its first element holds no arrays','m8_C11h':'SubqueryExpr skips the private row copy when the row already has a `<-` key: a CTE inside the subquery is registered in the caller\'s row','m8_C12h':'selector cache stores the prefix chain under every stage text of a `::` selector: later plain selectors are silently redirected','m8_C14h':'RegisterImmediateFunction stores the name as given while the check lower-cases it: mixed-case immediate functions accept ASYNC/SPIN',
+'m8_C15h':'number-vs-string renders integral float64 with FormatInt: 1e6 becomes 1000000 instead of 1e+06','m8_C16h':'QuoteString ranges over runes: bytes that are not valid UTF-8 become U+FFFD','m8_C18h':'TO_UPPER uses strings.ToTitle (differs for Latin digraphs and Georgian)','m8_C20h':'WithVars copies the caller\'s map at New and writes it back after Exec: queries prepared up front do not see each other\'s stores'})
 rows=[]
 for d in sorted(glob.glob('/verif/seeded/m*')):
     n=os.path.basename(d)
